@@ -108,11 +108,90 @@ func init() {
 		}
 		return tuple{zeroT, perr()}
 	}
+	// time.ParseInLocation(layout, value, loc): the wall-clock reading of time.Parse taken in loc:
+	// for the local zone with offset off the instant is off seconds earlier
+	externals["time.ParseInLocation"] = func(in *Interp, fr *frame, args []value) value {
+		res := externals["time.Parse"](in, fr, args[:2]).(tuple)
+		if e, ok := res[1].(iface); ok && e.t != nil {
+			return res
+		}
+		lp, _ := args[2].(*value)
+		if lp == nil || lp == in.timeGlobalAddr("utcLoc") {
+			return res
+		}
+		if lp != in.timeGlobalAddr("localLoc") {
+			panic(unsupported{"time.ParseInLocation in a zone other than UTC and Local"})
+		}
+		off := in.tzOffset()
+		st := res[0].(structure)
+		ext := st[1].(*Term)
+		return tuple{structure{st[0], in.tb.BVAdd(ext, in.tb.BV(SBV64, uint64(-off))), lp}, nilError()}
+	}
+	// calendar components of concrete instants whose zone is the process's own local zone (the
+	// explored one); any other Time (UTC, a zone the harness set up itself) runs the real code
+	civil := func(in *Interp, fr *frame, name string, args []value, f func(time.Time) value) value {
+		st := args[0].(structure)
+		lp, _ := st[2].(*value)
+		if lp == nil || lp != in.timeGlobalAddr("localLoc") {
+			return in.callReal(fr, "time", "Time", name, args)
+		}
+		t, ok := nativeTime(structure{st[0], st[1], (*value)(nil)})
+		if !ok {
+			panic(unsupported{"Time." + name + " of a symbolic local instant"})
+		}
+		if off := in.tzOffset(); off != 0 {
+			t = t.In(time.FixedZone("verif", int(off)))
+		}
+		return f(t)
+	}
+	externals["(time.Time).Year"] = func(in *Interp, fr *frame, args []value) value {
+		return civil(in, fr, "Year", args, func(t time.Time) value { return in.intConst(int64(t.Year())) })
+	}
+	externals["(time.Time).Month"] = func(in *Interp, fr *frame, args []value) value {
+		return civil(in, fr, "Month", args, func(t time.Time) value { return in.intConst(int64(t.Month())) })
+	}
+	externals["(time.Time).Day"] = func(in *Interp, fr *frame, args []value) value {
+		return civil(in, fr, "Day", args, func(t time.Time) value { return in.intConst(int64(t.Day())) })
+	}
+	externals["(time.Time).Date"] = func(in *Interp, fr *frame, args []value) value {
+		return civil(in, fr, "Date", args, func(t time.Time) value {
+			y, m, d := t.Date()
+			return tuple{in.intConst(int64(y)), in.intConst(int64(m)), in.intConst(int64(d))}
+		})
+	}
+	// time.Date(y, mo, d, h, mi, s, ns, loc) on concrete operands, in UTC or the explored local zone
+	externals["time.Date"] = func(in *Interp, fr *frame, args []value) value {
+		n := make([]int, 7)
+		for i := 0; i < 7; i++ {
+			t, ok := args[i].(*Term)
+			if !ok || !t.IsConst() {
+				panic(unsupported{"time.Date with symbolic operands"})
+			}
+			n[i] = int(t.SVal())
+		}
+		lp, _ := args[7].(*value)
+		loc := time.UTC
+		if lp != nil && lp != in.timeGlobalAddr("utcLoc") && lp != in.timeGlobalAddr("localLoc") {
+			return in.callRealFunc(fr, "time", "Date", args)
+		}
+		isLocal := lp != nil && lp == in.timeGlobalAddr("localLoc")
+		if isLocal {
+			if off := in.tzOffset(); off != 0 {
+				loc = time.FixedZone("verif", int(off))
+			}
+		}
+		t := time.Date(n[0], time.Month(n[1]), n[2], n[3], n[4], n[5], n[6], loc)
+		res := in.timeFromNative(t).(structure)
+		if isLocal {
+			res[2] = lp
+		}
+		return res
+	}
 	externals["(time.Time).Format"] = func(in *Interp, fr *frame, args []value) value {
 		layout := in.concStr(args[1], "Format layout")
 		st := args[0].(structure)
 		ext, _ := st[1].(*Term)
-		if lp, ok := st[2].(*value); ok && lp != nil && ext != nil {
+		if lp, ok := st[2].(*value); ok && lp != nil && lp == in.timeGlobalAddr("localLoc") && ext != nil {
 			// a Time in the local zone: the process time zone is part of the environment and is
 			// explored - UTC, a negative and a positive offset. Under a non-zero offset the text
 			// is that of the shifted instant (an opaque piece unless it is concrete).
@@ -174,6 +253,37 @@ func init() {
 		n := in.tb.BVAdd(ext, in.tb.BVMul(d, in.tb.BV(SBV64, 86400)))
 		return structure{st[0], n, st[2]}
 	}
+}
+
+// callReal runs the real SSA of method pkg.(recv).name although an external is registered for it.
+func (in *Interp) callReal(fr *frame, pkg, recv, name string, args []value) value {
+	t := in.findType(pkg, recv)
+	fn := in.anyMethod(t, name)
+	if fn == nil {
+		panic(unsupported{"no method " + recv + "." + name})
+	}
+	in.skipExt = fn
+	return in.call(fr, 0, fn, args)
+}
+
+func (in *Interp) callRealFunc(fr *frame, pkg, name string, args []value) value {
+	fn := in.findFunc(pkg, name)
+	if fn == nil {
+		panic(unsupported{"no function " + pkg + "." + name})
+	}
+	in.skipExt = fn
+	return in.call(fr, 0, fn, args)
+}
+
+func (in *Interp) timeGlobalAddr(name string) *value {
+	for _, p := range in.prog.AllPackages() {
+		if p.Pkg.Path() == "time" {
+			if g := p.Var(name); g != nil {
+				return in.globalAddr(g)
+			}
+		}
+	}
+	panic(unsupported{"time." + name + " not found"})
 }
 
 // dateOnlyLayout reports whether a time layout shows no clock or zone component.
